@@ -34,6 +34,7 @@ var profiles = map[string]world.GenOpts{
 	"np-named":  {MaxNS: 2, MaxWl: 3, MaxNP: 3, NamedIP: true},
 	"admin":     {MaxNS: 3, MaxWl: 4, MaxNP: 3, MaxANP: 3, BANP: true, KindsFree: true},
 	"admin-big": {M: 7, NAddr: 8, MaxNS: 4, MaxWl: 6, MaxNP: 4, MaxANP: 4, BANP: true, KindsFree: true, HasOut: true},
+	"np-shared": {MaxNS: 3, MaxWl: 5, MaxNP: 3, KindsFree: true, Shared: true},
 	"pods":      {MaxNS: 3, MaxWl: 4, MaxNP: 3, MaxANP: 2, BANP: true, OnlyPods: true},
 }
 
